@@ -583,7 +583,10 @@ func TestRegConcurrentConfigWritesKeepServing(t *testing.T) {
 			strings.Count(dump, "config.SaveConfig"), clip2(dump, 6000))
 	}
 	w.setKeys(t, fixtureKeyEntries(), true)
-	w.step(t, reqSpec{H: handlerSpec{"raw", pUser, pUser}, Method: http.MethodGet, Host: "portmaster.test", Authz: "Bearer " + keyName(pUser, pUser)})
+	// cleanup tasks of the writes above may still rewrite the key list: stepStable only judges a settled configuration
+	if _, _, ok := w.stepStable(t, reqSpec{H: handlerSpec{"raw", pUser, pUser}, Method: http.MethodGet, Host: "portmaster.test", Authz: "Bearer " + keyName(pUser, pUser)}); !ok {
+		t.Fatalf("the key configuration did not settle after the concurrent writers finished")
+	}
 }
 
 func clip2(s string, n int) string {
